@@ -40,6 +40,11 @@ namespace l16
         Desc a, b, c;
         Aux aux;
         void (*call)(Ctx &);
+        // in-place calls: for register rows the generated call sites pass the result's registers (x.C) also as operand a / b;
+        // for array rows the engine makes the result pointer equal to the operand pointer and uses `call`
+        void (*call_a)(Ctx &);
+        void (*call_b)(Ctx &);
+        bool alias_a, alias_b; // the result may be aliased to that operand (mirrors Layout16!Aliasable)
     };
 }
 void l16_register_all(std::vector<l16::Row> &t);
